@@ -74,6 +74,7 @@ IDENT_USES = [
     "CREATE TABLE t (a int);\nCREATE INDEX {W} ON t (a);", "CREATE SCHEMA {W};", "CREATE TYPE {W} AS ENUM ('a');", "CREATE DOMAIN {W} AS int;",
     "CREATE DATABASE {W};", "CREATE TABLE t (a {W});", "CREATE TABLE t (a int DEFAULT {W});", "CREATE TABLE t (a int REFERENCES {W} (id));",
     "CREATE TABLE t (a int, CONSTRAINT {W} UNIQUE (a));", "CREATE TABLE t (a int) TABLESPACE {W};", "CREATE TABLE t CLONE {W};",
+    "CREATE TABLE x (LIKE src) {W} (fillfactor=70);", "CREATE TABLE x LIKE src {W} 'abc';", "CREATE TABLE x (LIKE s.src) {W};",
     "ALTER TABLE {W} ADD c int;", "DROP TABLE {W};", 'CREATE TABLE "{W}" ("{W}" int);', "CREATE TABLE x LIKE {W}.{W};",
 ]
 
